@@ -311,10 +311,10 @@ pub fn def_b() -> CheckDef {
         id: "C13b",
         title: "Isolation: the outcome does not depend on how client threads interleave with the engine's thread (layer 2)",
         case: case_b,
-        rule: "case = generated model with parallel structure (multi-branch steps, block/parallel/sequence acts) x scripted client (complete / skip / abort / error / submit / remove) played by 1..3 virtual client threads that answer every interrupt as soon as its message has been delivered, while the executor runs as one more virtual thread: the baton moves at intercepted engine lock acquisitions (preemption probability 1% / 10% / 50%), so a client action lands in the middle of the scheduler's work on the same process (between a check and the lock, between two queued siblings) x seeded baton choices. Judged by the invariants that hold for every interleaving: no terminal task state is rewritten and stages only move forward (C02's monitor), at most one terminal message per task and stream/trace agreement (C08's monitor), nothing open beneath a completed task and one terminal event at the final quiescent point (C03's oracle), no deadlock of the engine on its own locks, no panic. non-trivial = a client call overlapped engine work (a baton switch inside a client call) and at least one non-complete action was accepted; distinct = distinct (scenario hash, schedule hash)",
+        rule: "case = generated model with parallel structure (multi-branch steps, block/parallel/sequence acts) x scripted client (complete / skip / abort / error / submit / remove) played by 1..3 virtual client threads that answer every interrupt as soon as its message has been delivered, while the executor runs as one more virtual thread (in a third of the cases the process first reaches its interrupts at a quiescent point and is dropped from the cache, so that the threads have to bring it back from the store): the baton moves at intercepted engine lock acquisitions (preemption probability 1% / 10% / 50%), so a client action lands in the middle of the scheduler's work on the same process (between a check and the lock, between two queued siblings) x seeded baton choices. Judged by the invariants that hold for every interleaving: no terminal task state is rewritten and stages only move forward (C02's monitor), at most one terminal message per task and stream/trace agreement (C08's monitor), nothing open beneath a completed task and one terminal event at the final quiescent point (C03's oracle), no deadlock of the engine on its own locks, no panic. non-trivial = a client call overlapped engine work (a baton switch inside a client call) and at least one non-complete action was accepted; distinct = distinct (scenario hash, schedule hash)",
         level: "exploration",
         assumptions: &["preemption happens at engine lock acquisitions (all shared engine state is behind these locks)", "virtual threads are real OS threads released one at a time; the interleaving is the decision trace", "monotone simulated clock"],
-        probes: &["probe.switch_inside_client_call", "probe.forced_switch", "probe.three_client_threads", "probe.non_complete_action_accepted", "probe.action_while_tasks_queued"],
+        probes: &["probe.switch_inside_client_call", "probe.forced_switch", "probe.three_client_threads", "probe.non_complete_action_accepted", "probe.action_while_tasks_queued", "probe.evicted_before_the_threads"],
         quick_cases: 3000,
         no_shrink: &[],
     }
@@ -330,24 +330,47 @@ pub fn case_b(ctx: &mut CaseCtx) -> CaseOut {
         // number of client threads and preemption rate travel in the scenario (replays)
         sc.max_ops = 1 + rng.below(3) as u32;
         sc.pre_jump_us = *rng.pick(&[10i64, 100, 500]);
+        sc.ticks = if rng.below(3) == 0 { 1 } else { 0 };
         sc.capture = true;
         sc
     });
     let n_threads = sc.max_ops.clamp(1, 3) as usize;
+    // carried in the scenario as well: a third of the cases evict the process before the threads start
+    let evict_first = sc.ticks == 1;
+    if evict_first {
+        ctx.count("probe.evicted_before_the_threads", 1);
+    }
     let preempt = sc.pre_jump_us.clamp(1, 900) as u32;
     let stats: std::sync::Arc<std::sync::Mutex<(u64, u64, u64, Option<String>, bool)>> = Default::default();
     let stats2 = stats.clone();
     let mut sc_run = sc.clone();
     sc_run.pre_jump_us = 0;
+    sc_run.ticks = 0;
     let rec = ctx.run_with(&sc_run, move |w| {
         if let Err(e) = w.deploy_all() {
             w.rec.lock().unwrap().rec.panics.push(format!("deploy: {e}"));
             return;
         }
         let starts = w.sc.starts.clone();
-        vsim::vthread::begin(preempt);
-        for s in &starts {
-            w.start(s);
+        if evict_first {
+            // the process reaches its first interrupts, is dropped from the cache, and then several client threads
+            // act on it at once: each of them has to bring it back from the store
+            for s in &starts {
+                w.start(s);
+            }
+            w.settle();
+            w.capture("before the eviction");
+            w.qidx += 1;
+            let pids: Vec<String> = w.live().iter().map(|p| p.pid.clone()).collect();
+            for pid in pids {
+                w.evict(&pid);
+            }
+            vsim::vthread::begin(preempt);
+        } else {
+            vsim::vthread::begin(preempt);
+            for s in &starts {
+                w.start(s);
+            }
         }
         let mut hs = vec![];
         for i in 0..n_threads {
